@@ -250,7 +250,14 @@ def _run_single(ctx, case, pair, prefix):
             return
         if first_bad == 0:
             after = rt.snapshot()
-            if (after["cfg"] != before["cfg"] or after["tx"] != before["tx"]
+            # send()'s documented prologue discards a payload left over from an earlier FAILED
+            # transmission (MAX_RT standing) before the new buffer is looked at: that flush is not
+            # "something reaching the radio" (thorough run #11: a set-up history whose last call made
+            # the junk payload fail - the rejected send() then emptied the TX FIFO)
+            stale_flush = bool(before["flags"] & 0x10) and before["tx"] and not after["tx"]
+            if stale_flush:
+                ctx.count("rejected_send_flushed_a_leftover_failed_payload")
+            if (after["cfg"] != before["cfg"] or (after["tx"] != before["tx"] and not stale_flush)
                     or after["rx"] != before["rx"] or len(pair.rig.air.log) != air0
                     or rr.snapshot()["rx"] != rx_before["rx"]):
                 ctx.violation(prefix + "rejection-changed-radio-state",
